@@ -143,17 +143,21 @@ pub fn run(op: &str, e: &Value, ctx: &mut Ctx) -> Result<Value, String> {
             use zeroize::Zeroize;
             let ty = e["ty"].as_str().ok_or("ty")?;
             let b = arr32(inp(e, 0)?)?;
-            let r = match ty {
-                "Scalar" => { let mut s = Scalar::from_bytes_mod_order(b); s.zeroize(); s.to_bytes().to_vec() }
-                "EdwardsPoint" => { let mut p = EdwardsPoint::mul_base(&Scalar::from_bytes_mod_order(b)); p.zeroize(); p.compress().to_bytes().to_vec() }
-                "CompressedEdwardsY" => { let mut p = curve25519_dalek::edwards::CompressedEdwardsY(b); p.zeroize(); p.to_bytes().to_vec() }
-                "RistrettoPoint" => { let mut p = RistrettoPoint::mul_base(&Scalar::from_bytes_mod_order(b)); p.zeroize(); p.compress().to_bytes().to_vec() }
-                "CompressedRistretto" => { let mut p = curve25519_dalek::ristretto::CompressedRistretto(b); p.zeroize(); p.to_bytes().to_vec() }
-                "MontgomeryPoint" => { let mut p = MontgomeryPoint(b); p.zeroize(); p.to_bytes().to_vec() }
-                "StaticSecret" => { let mut s = x25519_dalek::StaticSecret::from(b); s.zeroize(); s.to_bytes().to_vec() }
+            // r: the value through the public encoder; raw / raw_id: the object's storage after zeroize() and the storage of the
+            // value the documentation promises (the identity / zero), byte for byte - an encoder can hide a surviving coordinate
+            fn raw<T>(x: &T) -> Vec<u8> { unsafe { std::slice::from_raw_parts(x as *const T as *const u8, std::mem::size_of::<T>()) }.to_vec() }
+            use curve25519_dalek::traits::Identity;
+            let (r, rw, rid) = match ty {
+                "Scalar" => { let mut s = Scalar::from_bytes_mod_order(b); s.zeroize(); (s.to_bytes().to_vec(), raw(&s), raw(&Scalar::ZERO)) }
+                "EdwardsPoint" => { let mut p = EdwardsPoint::mul_base(&Scalar::from_bytes_mod_order(b)); p.zeroize(); (p.compress().to_bytes().to_vec(), raw(&p), raw(&EdwardsPoint::identity())) }
+                "CompressedEdwardsY" => { let mut p = curve25519_dalek::edwards::CompressedEdwardsY(b); p.zeroize(); (p.to_bytes().to_vec(), raw(&p), raw(&curve25519_dalek::edwards::CompressedEdwardsY::identity())) }
+                "RistrettoPoint" => { let mut p = RistrettoPoint::mul_base(&Scalar::from_bytes_mod_order(b)); p.zeroize(); (p.compress().to_bytes().to_vec(), raw(&p), raw(&RistrettoPoint::identity())) }
+                "CompressedRistretto" => { let mut p = curve25519_dalek::ristretto::CompressedRistretto(b); p.zeroize(); (p.to_bytes().to_vec(), raw(&p), raw(&curve25519_dalek::ristretto::CompressedRistretto::identity())) }
+                "MontgomeryPoint" => { let mut p = MontgomeryPoint(b); p.zeroize(); (p.to_bytes().to_vec(), raw(&p), raw(&MontgomeryPoint([0u8; 32]))) }
+                "StaticSecret" => { let mut s = x25519_dalek::StaticSecret::from(b); s.zeroize(); (s.to_bytes().to_vec(), raw(&s), raw(&x25519_dalek::StaticSecret::from([0u8; 32]))) }
                 _ => return Err("ty".into()),
             };
-            Ok(json!({"r": jbytes(&r)}))
+            Ok(json!({"r": jbytes(&r), "raw": jbytes(&rw), "raw_id": jbytes(&rid)}))
         }
         _ => Err(format!("unknown op {op}")),
     }
